@@ -84,7 +84,19 @@ def r09_2(ctx):
     for cname, cond in (("RootAlias", None), ("FromGraph", None), ("FromArray", "_name_is_exact")):
         c = repo.find_class(cname)
         lo = c.methods.get("lower_once")
-        need(lo is not None, f"{cname}.lower_once")
+        if lo is None:
+            # the override is gone: attribute lookup now resolves to a base class (ultimately Expr.lower_once,
+            # which looks the name up in - and stores it into - the cache it is handed)
+            hit = repo.class_attr(c, "lower_once")
+            where = f"{hit[0].name}.lower_once" if hit else "nothing"
+            rr.inst(f"{c.construct}::lower_once", present=False, resolves_to=where)
+            ctx.finding(
+                rr, f"{c.construct}::lower_once",
+                f"{cname} no longer overrides lower_once (lookups resolve to {where}): its pinned (user-/collection-given) name now enters the process-wide name-keyed "
+                f"lowering cache, where a later, different tree pinned to the same name is served the earlier node",
+                file=c.module.path, line=c.node.lineno,
+            )
+            continue
         cfg = cfg_of(ctx, lo)
         params = [p for p in lo.params if p != "self"]
         cache_param = params[0] if params else "lowered"
